@@ -5,6 +5,24 @@ HERE = os.path.dirname(os.path.abspath(__file__)); VERIF = os.path.dirname(HERE)
 TB = ("Trusted: Lean 4.33 kernel; axioms propext/Classical.choice/Quot.sound only (audited every run); the Lean compiler for the "
       "executable checker grcv; tools/gen.py (IR and GDL text denote the same program), tools/ttf.py font builder; python harness. ")
 CHECKS = {
+ "C03": dict(
+   technique="strict Lean decoders + Lean theorem Code.check_sound (accepted code returns without underflow under every context-item outcome), opcode table regenerated from constants.h; run on real output over the option matrix; libgraphite2 acceptance",
+   text=("Proof: Grc.Code.check_sound — any action/constraint block accepted by the checker, run from an empty stack, never underflows, never meets an unknown "
+         "opcode or truncated operand and ends in a return, for every behaviour of the context-item tests. The decoders for sfnt directory, Silf (v2-v5, incl. LZ4 framing), "
+         "Gloc, Glat (v1-v3), Feat, Sill and name are strict parsers whose acceptance is the well-formedness predicate (every offset/count/search header/cross reference checked). "
+         "The check runs them, the code checker and reference validation (classes, glyph attributes, features, slot attributes, metrics) on every font written with exit 0 for "
+         "generated programs x {-v2..-v5,-c,-p,-offsets,-g,-n}, and requires libgraphite2 to load and shape with each font."),
+   note=TB + "The decoders are definitions (my reading of GTF_4_0/5_0 and of the writers), not proved against an independent format spec; operand sizes/stack effects per doc/StackMachineCommands. Slot-offset range validity is checked in C01, not here.",
+   design="4/C03"),
+ "C04": dict(
+   technique="Lean 4 theorems about the class algorithms (intersection/difference/sorted pair list/lookup/PutSubs) + class semantics evaluated in Lean and compared with the decoded class map and FSM of real output",
+   text=("Proof: mem_interList, mem_diffList (the compiler's '&='/'-=' algorithms are set intersection/difference on duplicate-free operands, order of the first operand kept), "
+         "sorted_sortedPairs, lookup_sortedPairs, putsubs_correct (for every duplicate-free selector class and every index i, the engine's lookup in the list built by the model of "
+         "AddGlyphsToSortedList followed by indexing the output class yields the i-th output glyph). Tie: class values are computed by the Lean semantics `Cls.value` from the "
+         "generator's definition trees (nesting, ranges, late '+=', '&=', '-='); for every substituting rule item the PutSubs/PutGlyph operands and class map decoded from the real "
+         "font must map every selector glyph to the denoted output glyph, and the pass FSM must be certified (C02 theorem) against exactly those memberships."),
+   note=TB + "Cls.lookup abstracts the engine's binary search; class references denote the final value of the referenced class (late binding).",
+   design="4/C04"),
  "C06": dict(
    technique="Lean 4 theorems (padding alignment, start-of-text firing, trial order) + their hypotheses evaluated on decoded real output",
    text=("Proof: Grc.Prec.padding_preserves_match (for every glyph string and scan position the ANY-padded rule matches iff the rule as written "
